@@ -301,9 +301,11 @@ def main(argv=None):
             print(f"   {name}={agg['counters'][name]}")
 
     if viol_lines:
-        for k, path, r in viol_lines:
+        for k, path, r in viol_lines[:8]:
             print(f"VIOLATION property={prop} replay={path.relative_to(VERIF)}  key={k}")
-            print("  witness:", json.dumps(r.get("witness"))[:1200])
+            print("  witness:", json.dumps(r.get("witness"))[:800])
+        if len(viol_lines) > 8:
+            print(f"... and {len(viol_lines) - 8} more violation keys (see evidence/{prop}.json coverage.violation_keys and evidence/replays/)")
         return 1
     if evals < min_evals or len(agg["distinct"]) < 2:
         print(f"INCONCLUSIVE property={prop}: deciding monitor reached only {evals} evaluations (< {min_evals}); no verdict")
